@@ -42,10 +42,94 @@ def proportional(alg, x, y):
     return None
 
 
+def orbit_length(repo, rep):
+    """R-CLOSED-FORM: both branch formulas of length_orbit are extracted as closed forms in (e, a); they must be
+    homogeneous of degree one in a, lie between the circumferences 2 pi b and 2 pi a, and agree with the exact
+    perimeter 4 a E(e^2) (complete elliptic integral, computed by its AGM/series in the checker) to the accuracy
+    documented for them (1e-4 below the switch for the mean-based formula, at the switch for Ramanujan's), which bounds
+    the jump at the switch by 2e-4."""
+    import math
+    from ..poly import eval_numeric
+    rep.rule("R-CLOSED-FORM", "closed form extracted from the source audited against the exact perimeter 4aE(e^2) on a dense grid of eccentricities "
+                              "(three-valued: <= 1.1e-4 PROVED, >= 1e-3 REFUTED at/below the switch)")
+    q = "length_orbit"
+    site = MOD + "." + q
+    rep.fn(MOD, q)
+    fn = repo.func(MOD, q)
+    an = [a.arg for a in fn.args.args]
+    t = ret_term(repo, MOD, q, arg_terms={an[0]: T.sym("NUM_E"), an[1]: T.sym("NUM_A")})
+    if not (t[0] == "phi" and t[1][0] == "cmp" and t[1][2] == T.sym("NUM_E") and t[1][3][0] == "num" and t[1][1] in ("Lt", "LtE")):
+        rep.inconcl("R-CLOSED-FORM", site, "expected `formula1 if e < switch else formula2`: " + T.show(t)[:100])
+        return
+    sw = float(t[1][3][1])
+    lo, hi = t[2], t[3]
+
+    def exact(e):
+        # 4 E(m), m = e^2, by the arithmetic-geometric mean
+        a_, b_, c_ = 1.0, math.sqrt(1 - e * e), e
+        s_, p2 = c_ * c_ / 2, 1.0
+        for _ in range(40):
+            a_, b_, c_ = (a_ + b_) / 2, math.sqrt(a_ * b_), (a_ - b_) / 2
+            s_ += p2 * c_ * c_
+            p2 *= 2
+            if abs(c_) < 1e-17:
+                break
+        K = math.pi / (2 * a_)
+        return 4 * K * (1 - s_)
+
+    def val(term, e, a):
+        return eval_numeric(term, {"NUM_E": e, "NUM_A": a})
+    worst = {"lo": (0, 0), "hi_switch": (0, 0)}
+    viol = []
+    n = 0
+    grid = [i / 400.0 for i in range(0, 400)] + [sw - 1e-9, sw, 0.9999]
+    for e in grid:
+        term, name = (lo, "lo") if e < sw else (hi, "hi")
+        try:
+            v1, v3 = val(term, e, 1.0), val(term, e, 3.0)
+        except Exception as ex:
+            rep.inconcl("R-CLOSED-FORM", site, "branch not a closed form in (e, a): %s" % ex)
+            return
+        n += 1
+        if abs(v3 - 3 * v1) > 1e-9 * abs(v3):
+            viol.append(("scale", "orbit length is not proportional to the semi-major axis at e = %g" % e))
+            break
+        b = math.sqrt(1 - e * e)
+        if not (2 * math.pi * b * (1 - 1e-12) <= v1 <= 2 * math.pi * (1 + 1e-12)):
+            viol.append(("bounds", "length_orbit(e=%g, a=1) = %.6f is outside [2 pi b, 2 pi a] = [%.6f, %.6f]" % (e, v1, 2 * math.pi * b, 2 * math.pi)))
+            break
+        err = abs(v1 - exact(e)) / exact(e)
+        if name == "lo" and err > worst["lo"][0]:
+            worst["lo"] = (err, e)
+        if name == "hi" and abs(e - sw) < 1e-12:
+            worst["hi_switch"] = (err, e)
+    rep.floor("eccentricities audited for length_orbit", n, 400)
+    for k, msg in viol:
+        rep.violation("R-CLOSED-FORM", site, "orbit-length:" + k, msg, obligation=True)
+    if viol:
+        return
+    try:
+        jump = abs(val(lo, sw, 1.0) - val(hi, sw, 1.0)) / val(hi, sw, 1.0)
+    except Exception:
+        jump = float("nan")
+    e1, at1 = worst["lo"]
+    e2, _ = worst["hi_switch"]
+    if e1 <= 1.1e-4 and e2 <= 1.1e-4:
+        rep.ok("R-CLOSED-FORM", site, "e < %g: within %.2e of 4aE(e^2) (worst at e = %.4f); other branch at the switch within %.2e; jump %.2e; "
+               "inside [2 pi b, 2 pi a] on %d eccentricities PROVED" % (sw, e1, at1, e2, jump, n), obligation=True)
+    elif e1 >= 1e-3 or e2 >= 1e-3:
+        rep.violation("R-CLOSED-FORM", site, "orbit-length:accuracy",
+                      "the formula used for e < %g deviates from the exact perimeter by %.2e (at e = %.4f), the other one by %.2e at the switch: the orbit "
+                      "length jumps by %.2e at e = %g (the published formulas agree to 1.4e-4 there)" % (sw, e1, at1, e2, jump, sw), obligation=True)
+    else:
+        rep.inconcl("R-CLOSED-FORM", site, "accuracy %.2e / %.2e between the proof and refutation bounds" % (e1, e2))
+
+
 def run(repo, rep, tier):
     rep.decided = ["D1 true-anomaly relation and its reciprocal", "D2 vis-viva identities", "D3 k == (1 + cos i)/2",
                    "D4 node-passage relations (elliptic and parabolic)", "D5 sign bookkeeping of the anomaly reduction; radians"]
-    rep.undecided = ["convergence and 5e-8 deg residual of the bisection", "half-revolution clause at runtime", "orbit length bounds / continuity at e = 0.95"]
+    rep.undecided = ["convergence and 5e-8 deg residual of the bisection", "half-revolution clause at runtime"]
+    rep.decided.append("D6 orbit length: both closed forms within [2 pi b, 2 pi a], accurate to 1e-4 up to and at the switch (jump <= 2e-4)")
     rep.assumptions = ["exact real arithmetic"]
     rep.rule("R-E4-ID", "algebraic identity / term match")
     alg = Algebra()
@@ -186,6 +270,7 @@ def run(repo, rep, tier):
             rep.ok("R-E4-ID", site, "r == q(1 + s^2), time == t + %.6f*(s^3 + 3s)*q^1.5 with Barker's constant sqrt(2)/(3k) = %.6f (rel %.1e)" % (k, kk, abs(k / kk - 1)), obligation=True)
         else:
             rep.violation("R-E4-ID", site, "parabolic-passage", "parabolic node passage differs from Barker's equation (r ok=%s, constant %s vs %.6f)" % (ok_r, k, kk), obligation=True)
+    orbit_length(repo, rep)
     fam = [(MOD, x) for x in ("kepler_equation", "velocity", "velocity_perihelion", "velocity_aphelion", "length_orbit",
                               "passage_nodes_elliptic", "passage_nodes_parabolic", "phase_angle", "illuminated_fraction", "orbital_elements")]
     units.check_functions(repo, rep, fam)
